@@ -16,13 +16,41 @@ UNITS = ['shell_association', 'sample_shell', 'update_shell_info', 'add_bound',
          'add_samples', 'setter', 'run[verbose=False,file=False]',
          'run[verbose=False,file=True]', 'run[verbose=True,file=False]',
          'run[verbose=True,file=True]']
-Z3_TIMEOUT_MS = 30000
+Z3_TIMEOUT_MS = 60000
+
+
+_EX = {}
+
+
+def _branch_cov():
+    return _EX['ex'].branch_cov if 'ex' in _EX else []
+
+
+def _branch_all():
+    return _EX['ex'].branch_all if 'ex' in _EX else []
+
+
+BRANCH_COVERED_FUNCTIONS = tuple(SQ + f for f in (
+    'shell_association', 'sample_shell', 'update_shell_info', 'add_bound',
+    'add_samples', 'discard_exploration.setter', 'run'))
+# branches that are dead *because of* a contract (listed, so that any other
+# branch the executor never takes is reported as a vacuity error)
+DEAD_BRANCHES = (
+    ('discard_exploration.setter', 'not isinstance(discard_exploration, bool)',
+     True),        # precondition: the argument is a bool
+    ('sample_shell',
+     'shell_t is not None and index not in [-1, len(self.bounds) - 1]',
+     True),        # excluded by precondition transfer_only_for_last_shell
+    ('run', 'self.n_eff < n_eff', False),   # fall-through contradicts the
+    # loop guard `not success` (this is C10's one-batch-per-iteration)
+)
 
 
 def build(cx, fe, tier, info, only=None):
     reg = new_registry(fe)
     M.install_bound_api(reg, cx)
     ex = Executor(cx, fe, reg)
+    _EX['ex'] = ex
 
     # ---- shell_association
     c_assoc = SC.shell_association_contract()
@@ -81,7 +109,7 @@ def build(cx, fe, tier, info, only=None):
     # ---- helper contracts used by the remaining functions
     reg.add_contract(SC.print_status_contract())
     reg.add_contract(SC.getter_real('log_v_live'))
-    reg.add_contract(SC.getter_real('n_eff'))
+    reg.add_contract(SC.n_eff_contract())
     reg.add_contract(SC.f_live_contract())
     reg.add_contract(SC.write_contract())
     reg.add_contract(SC.write_shell_update_contract())
